@@ -428,7 +428,7 @@ GLOBAL(void)
 _jinit_d_main_controller(j_decompress_ptr cinfo, boolean need_full_buffer)
 {
   my_main_ptr main_ptr;
-  int ci, rgroup, ngroups;
+  int ci, rgroup, ngroups, row;
   jpeg_component_info *compptr;
 
 #ifdef D_LOSSLESS_SUPPORTED
@@ -477,6 +477,17 @@ _jinit_d_main_controller(j_decompress_ptr cinfo, boolean need_full_buffer)
                         ((j_common_ptr)cinfo, JPOOL_IMAGE,
                          compptr->width_in_blocks * compptr->_DCT_scaled_size,
                          (JDIMENSION)(rgroup * ngroups));
+    /* The rows that correspond to dummy block rows below the bottom of the
+     * image are never written by the coefficient controller, but a merged
+     * upsampler that emits two rows at a time reads one of them when the
+     * output height is odd.  Clear the buffer so that such a row never
+     * contains out-of-range sample values (which would index outside of the
+     * range limit table when the data precision is greater than 8 bits.)
+     */
+    for (row = 0; row < rgroup * ngroups; row++)
+      memset(main_ptr->buffer[ci][row], 0,
+             (size_t)compptr->width_in_blocks * compptr->_DCT_scaled_size *
+             sizeof(_JSAMPLE));
   }
 }
 
